@@ -155,7 +155,7 @@ theorem monitor_accepts_commit (m m' : MState) (client : String) (fate : Fate) (
     (∀ k ∈ keys, k ∈ prewrittenKeys t) ∧
     (∀ k ∈ t.attemptedKeys, ∃ x ∈ t.prewritten, x.1 = k) ∧
     (∃ p, t.primary = some p ∧ p ∈ prewrittenKeys t) ∧
-    ((∃ p, t.primary = some p ∧ p ∈ keys) ∨ t.primaryCommitted.isSome = true) ∧
+    ((∃ p, t.primary = some p ∧ p ∈ keys) ∨ t.primaryCommitted.isSome = true ∨ (t.asyncAcks > 0 ∧ t.plainAcks = 0)) ∧
     (∀ c, t.primaryCommitted = some c → c = C) := by
   intro t
   have hall := ((monitor_accepts_iff _ _ _).mp h).1
@@ -176,15 +176,15 @@ theorem monitor_accepts_commit (m m' : MState) (client : String) (fate : Fate) (
     cases hp : t.primary with
     | none => rw [hp] at h7'; cases h7'
     | some p => rw [hp] at h7'; exact ⟨p, rfl, by simpa using h7'⟩
-  · have h8' : ((match t.primary with | some p => keys.contains p | none => false) || t.primaryCommitted.isSome) = true := h8
-    cases hp : t.primary with
-    | none => rw [hp] at h8'; right; simpa using h8'
-    | some p =>
-      rw [hp] at h8'
-      simp only [Bool.or_eq_true] at h8'
-      cases h8' with
-      | inl hh => left; exact ⟨p, rfl, by simpa using hh⟩
-      | inr hh => right; exact hh
+  · have h8' : ((match t.primary with | some p => keys.contains p | none => false) || t.primaryCommitted.isSome ||
+        (decide (t.asyncAcks > 0) && t.plainAcks == 0)) = true := h8
+    simp only [Bool.or_eq_true, Bool.and_eq_true, decide_eq_true_eq, beq_iff_eq] at h8'
+    rcases h8' with (hh | hh) | hh
+    · cases hp : t.primary with
+      | none => rw [hp] at hh; cases hh
+      | some p => rw [hp] at hh; left; exact ⟨p, rfl, by simpa using hh⟩
+    · right; left; exact hh
+    · right; right; exact hh
   · intro c hc
     have h9' : (match t.primaryCommitted with | some c => c == C | none => true) = true := h9
     rw [hc] at h9'; simpa using h9'
